@@ -470,6 +470,7 @@ func runC19(p *core.Prog, r *core.Report) {
 	}
 	var sends []*ssa.Send
 	var closes []ssa.Instruction
+	var defCloses []*ssa.Defer
 	for _, f := range fns {
 		sx.Instrs(f, func(in ssa.Instruction) {
 			if c, ok := in.(*ssa.Call); ok {
@@ -481,12 +482,22 @@ func runC19(p *core.Prog, r *core.Report) {
 					}
 				}
 			}
+			// `defer close(status)`: the channel is closed when Close returns, on every path that executed the defer
+			if d, ok := in.(*ssa.Defer); ok {
+				if b, ok := d.Call.Value.(*ssa.Builtin); ok && b.Name() == "close" && sx.Origins(d.Call.Args[0])[fieldKey(p, "util/ioutil", status)] {
+					if f == cl {
+						defCloses = append(defCloses, d)
+					} else {
+						r.Fail("C19-R3", "close(status) in "+fnName(f), p.Pos(in.Pos()), "the status channel is closed outside Close")
+					}
+				}
+			}
 			if s, ok := in.(*ssa.Send); ok && f == cl {
 				sends = append(sends, s)
 			}
 		})
 	}
-	if len(closes) == 0 {
+	if len(closes)+len(defCloses) == 0 {
 		r.Fail("C19-R3", "Close closes the status channel", p.FuncPos(cl), "no close(status) in Close")
 	}
 	// deliveries of the final total in Close: blocking sends of the size on the status channel, and the taken arm of a
@@ -517,11 +528,22 @@ func runC19(p *core.Prog, r *core.Report) {
 		ok := len(delivered.Instrs)+len(delivered.Edges) > 0 && sx.MustPass(cl, nil, c, delivered)
 		r.Check(ok, "C19-R3", fmt.Sprintf("Close: final total sent before close #%d", i), p.Pos(c.Pos()), "a blocking send of size on the status channel lies on every path to close(status)", "close(status) is reachable without first sending the final total: the consumer's last value may be stale")
 	}
+	for i, d := range defCloses {
+		// a deferred close runs when Close returns: some delivery lies on every path from the defer to a return
+		ok := len(delivered.Instrs)+len(delivered.Edges) > 0
+		for _, ret := range sx.Returns(cl) {
+			ok = ok && sx.MustPass(cl, d, ret, delivered)
+		}
+		r.Check(ok, "C19-R3", fmt.Sprintf("Close: final total sent before deferred close #%d", i), p.Pos(d.Pos()), "a blocking send of size on the status channel lies on every path from `defer close(status)` to the return", "Close can return, running the deferred close(status), without first sending the final total: the consumer's last value may be stale")
+	}
 	// …and Close always gets there: the only way past the send-and-close is a writer that has no status channel
 	{
 		cut := sx.Cut{Instrs: map[ssa.Instruction]bool{}, Edges: map[sx.Edge]bool{}}
 		for _, c := range closes {
 			cut.Instrs[c] = true
+		}
+		for _, d := range defCloses {
+			cut.Instrs[d] = true
 		}
 		sx.Instrs(cl, func(in ssa.Instruction) {
 			if ld, ok := in.(*ssa.UnOp); ok && ld.Op == token.MUL {
@@ -534,7 +556,7 @@ func runC19(p *core.Prog, r *core.Report) {
 			}
 		})
 		for i, ret := range sx.Returns(cl) {
-			ok := len(closes) > 0 && sx.MustPass(cl, nil, ret, cut)
+			ok := len(closes)+len(defCloses) > 0 && sx.MustPass(cl, nil, ret, cut)
 			r.Check(ok, "C19-R3", fmt.Sprintf("Close: return #%d is reached only after close(status) or without a status channel", i), p.Pos(ret.Pos()), "every path to the return closes the channel (after the final send) or found the channel nil", "Close can return without sending the final total and closing the status channel although the channel exists: the consumer waits forever for the end of the stream")
 		}
 	}
